@@ -291,6 +291,133 @@ def nominal_bins(code_mass_view, tol=0.35):
     return bins
 
 
+# ----------------------------------------------------------------------------- call sequences (state leaking between calls)
+def model_agrees(chk, case, r, m):
+    """one answer of the code against the model reply for the SAME arguments (tolerances as in the correspondence)"""
+    f, o = case
+    if m.startswith('ERR:') or not m.startswith('OK\t'):
+        return f'model says {m[:40]} but the code returned a pattern'
+    _, mx, sn, dist = m.split('\t')
+    mx, sn = float(Fraction(mx)), float(Fraction(sn))
+    model = parse_dist(dist)
+    a = o['distribution_abundance']
+    scale = a / sn if o['is_abundance_sum'] else a
+    abs_tol = FLOOR_K * 1e-8 / mx * scale
+    thr = o['min_abundance_threshold']
+    thr_abs = thr * scale if thr else None
+    res = compare_dist(r, model, 1e-6, 1e-6, abs_tol, thr_abs, 2 * abs_tol + 1e-6 * (thr_abs or 0))
+    if res is None:
+        return None
+    rd, tg = (float(Fraction(x)) for x in chk.driver(DRV, [iso_line(case).replace('iso\t', 'isodiag\t', 1)])[0].split('\t'))
+    if rd < 1e-6 or (o['max_isotopes'] is not None and tg < 1e-4):
+        return None
+    return res
+
+
+def gen_sequence(rng, constants):
+    """calls on ONE composition; consecutive calls differ in exactly one argument; every dimension is walked forth and back"""
+    els = rng.sample(CHNOSP, rng.randint(2, 4))
+    if 'S' not in els and rng.random() < 0.7:
+        els.append('S')          # S gives peaks of relative abundance 1e-4 .. 1e-2: between the thresholds used below
+    f = {e: rng.randint(1, 8) for e in els}
+    if rng.random() < 0.3:
+        f['e'] = rng.choice([-1, 1, 2])
+    if rng.random() < 0.2:
+        f[rng.choice(els)] += 0.5
+    o = dict(max_isotopes=None, min_abundance_threshold=None, distribution_resolution=5, use_neutron_count=rng.random() < 0.3,
+             distribution_abundance=1.0, is_abundance_sum=False, output_masses_for_neutron_offset=False,
+             neutron_mass=constants.NEUTRON_MASS)
+    dims = {
+        'min_abundance_threshold': [1e-2, 1e-3, 1e-6, 0.0, None],
+        'max_isotopes': [3, 10, None],
+        'distribution_resolution': [0, 3, 5],
+        'use_neutron_count': [True, False],
+        'output_masses_for_neutron_offset': [True, False],
+        'distribution_abundance': [100.0, 1.0],
+        'is_abundance_sum': [True, False],
+        '#formula': ['reversed', 'zero-entry', 'plain'],
+    }
+    calls = [(dict(f), dict(o))]
+    cur_f, cur_o = dict(f), dict(o)
+    order = list(dims)
+    rng.shuffle(order)
+    for d in order:
+        vals = dims[d]
+        walk = vals + vals[-2::-1] if rng.random() < 0.5 else vals[::-1] + vals[1:]
+        for v in walk:
+            if d == '#formula':
+                items = [(k, x) for k, x in f.items()]
+                if v == 'reversed':
+                    cur_f = dict(reversed(items))
+                elif v == 'zero-entry':
+                    cur_f = dict(items[:1] + [('Li', 0)] + items[1:])
+                else:
+                    cur_f = dict(items)
+            else:
+                cur_o = dict(cur_o)
+                cur_o[d] = v
+            calls.append((dict(cur_f), dict(cur_o)))
+    return calls
+
+
+FRESH_SNIPPET = """
+import json, sys, warnings
+warnings.simplefilter('ignore')
+import peptacular as pt
+calls = json.load(sys.stdin)
+out = []
+for f, o in calls:
+    out.append([[float(m), float(a)] for m, a in pt.isotopic_distribution(dict(f), **o)])
+print(json.dumps(out))
+"""
+
+
+def fresh_answers(calls):
+    """the same calls in a fresh interpreter (given order)"""
+    import subprocess
+    import sys as _sys
+    env = dict(os.environ)
+    p = subprocess.run([_sys.executable, '-W', 'ignore', '-c', FRESH_SNIPPET], input=json.dumps(calls), capture_output=True,
+                       text=True, env=env, cwd='/tmp')
+    if p.returncode != 0:
+        raise core.InfraError('fresh interpreter failed: ' + p.stderr[-500:])
+    return json.loads(p.stdout.strip().split('\n')[-1])
+
+
+def check_sequence(chk, pt, calls):
+    """returns None or a description; every answer is compared with the model for that call's own arguments, with the answer of the
+    same call re-issued at the end, after mutating the returned list, and in a fresh interpreter running the calls in reverse order"""
+    answers = []
+    for c in calls:
+        r = call_iso(pt, c)
+        answers.append([(float(m), float(a)) for m, a in r])
+        # the caller may do anything with the returned list
+        r.append((0.0, 123.0))
+        if len(r) > 1:
+            r[0] = (-1.0, -1.0)
+        del r[:]
+        again = call_iso(pt, c)
+        if [(float(m), float(a)) for m, a in again] != answers[-1]:
+            return {'step': len(answers) - 1, 'call': c, 'why': 'the same call repeated after mutating the returned list gives a different answer'}
+    replies = par_driver(chk, [iso_line(c) for c in calls])
+    for i, (c, r, m) in enumerate(zip(calls, answers, replies)):
+        why = model_agrees(chk, c, r, m)
+        if why is not None:
+            return {'step': i, 'call': c, 'previous_call': calls[i - 1] if i else None,
+                    'why': 'answer differs from the exact model for this call\'s own arguments: ' + why}
+    for i in range(min(4, len(calls))):
+        r = call_iso(pt, calls[i])
+        if [(float(m), float(a)) for m, a in r] != answers[i]:
+            return {'step': i, 'call': calls[i], 'why': 'an early call re-issued at the end of the sequence gives a different answer'}
+    rev = fresh_answers(calls[::-1])[::-1]
+    for i, (r, fr_) in enumerate(zip(answers, rev)):
+        if [list(x) for x in r] != fr_:
+            return {'step': i, 'call': calls[i], 'previous_call': calls[i - 1] if i else None,
+                    'why': 'answer depends on the call history: a fresh interpreter running the calls in reverse order returns a different pattern'}
+    return None
+
+
+
 def par_driver(chk, lines, workers=4):
     """the driver is a pure function of each line: run chunks in parallel processes"""
     if len(lines) < 40:
@@ -766,6 +893,27 @@ def run(chk):
     slow.sort(reverse=True)
     chk.notes.append('slowest oracle cases: ' + '; '.join(f'{t:.1f}s {c}' for t, c in slow[:3]))
     tick('clauses oracle')
+    # ---------------------------------------------------------------- call sequences on one composition (state must not leak)
+    seqs = [gen_sequence(rng, constants) for _ in range(6 if quick else 40)]
+    # the witness of the seeded cache regression: pruned call, then the plain call
+    o_w = dict(max_isotopes=None, min_abundance_threshold=1e-3, distribution_resolution=5, use_neutron_count=False,
+               distribution_abundance=1.0, is_abundance_sum=False, output_masses_for_neutron_offset=False, neutron_mass=constants.NEUTRON_MASS)
+    seqs.insert(0, [({'C': 1, 'S': 1}, o_w), ({'C': 1, 'S': 1}, dict(o_w, min_abundance_threshold=None)),
+                    ({'C': 1, 'S': 1}, dict(o_w, min_abundance_threshold=None, is_abundance_sum=True))])
+    seq_detail = {}
+
+    def o_seq(calls):
+        res = check_sequence(chk, pt, calls)
+        if res is not None:
+            seq_detail[id(calls)] = res
+            return json.dumps(res, default=str)[:1800]
+        return None
+
+    chk.oracle('call_sequences_state_independent', seqs, o_seq, nontrivial_fn=lambda c: len(c) >= 3,
+               key_fn=lambda c: repr(c)[:400])
+    chk.count('sequence calls (each compared with the model for its own arguments, re-issued, fresh interpreter)', sum(len(q) for q in seqs))
+    tick('call sequences')
+
     # neutron-offset view = mass view binned by nominal mass
     bcases = []
     for _ in range(60 if quick else 600):
